@@ -531,7 +531,7 @@ def run(tier, seed):
                                  {"model": det} if st == "failed" else ({"reason": det} if st == "undecided" else (det or {}))))
     run.add_verdicts(vs)
     run.notes.append({"paths explored per configuration (cols/first/abscissa/casenum)": paths, "seconds": round(time.time() - t0, 1)})
-    ev, cf = concrete_extrema(mod, seed, 300 if tier == "quick" else 5000)
+    ev, cf = report.guarded(run, concrete_extrema, mod, seed, 300 if tier == "quick" else 5000)
     run.bounded.append(dict(name="real extrema over random multi-row, multi-case histories (NaNs, ties, 1 and 2 columns) vs brute force", evaluations=ev,
                             failures=0 if cf is None else 1, label="bounded (replay engine)"))
     one, sym = (1.0, 1.0, 1.0, 1.0), ("s", "s", "s", "s")
@@ -551,7 +551,7 @@ def run(tier, seed):
     run.add_verdicts([report.Verdict("frame::no function of pyyeti/cla keeps state between calls through a mutable default argument (%d functions scanned)" % nfn,
                                      "failed" if badfr else "proved", "ast scan", 0.0, "frame", "pyyeti/cla", {"offending": badfr[:5]})])
     vs.append(run.verdicts[-1])
-    ev3, cf3 = apply_uf_nosave(seed)
+    ev3, cf3 = report.guarded(run, apply_uf_nosave, seed)
     run.bounded.append(dict(name="float: consecutive apply_uf calls without a cache argument on different solutions", evaluations=ev3, failures=0 if cf3 is None else 1, label="bounded"))
     try:
         ev4, cf4 = dr_results_bounded(seed, tier == "quick")
